@@ -9,7 +9,7 @@ from vlib.common import ToolError
 
 ATTR = {
     'C01': ['PlacesAndWindows', 'Reach', 'ShiftStart', 'DepartureNotBeforeEarliest', 'DepartureNotAfterLatest', 'ShiftEnd',
-            'Capacity', 'Skills', 'LimitDistance', 'LimitDuration', 'LimitTourSize', 'Groups', 'Compat', 'OrderHard', 'RelationVehicle', 'RelationOrder'],
+            'Capacity', 'Skills', 'LimitDistance', 'LimitDuration', 'LimitTourSize', 'Groups', 'Compat', 'OrderHard', 'RelationVehicle', 'RelationOrder', 'RechargeDistance'],
     'C02': ['PartitionJobs', 'NoForeignIds', 'TourNamesVehicleShift', 'TourServesJob', 'TourTerminals',
             'TourUniqueVehicleShift', 'ConditionalDistinct'],
     'C03': ['ScheduleArrivals', 'ScheduleDepartures', 'StopLocations', 'PlaceTags', 'PlaceTagsSinglePlaceAtLocation',
@@ -161,6 +161,30 @@ def from_coords(case, outcome):
     in_problem = list(unknown)
     _walk(solution, conv)
     return problem, outcome['approx']['matrices'], solution, unknown, in_problem
+
+
+def add_recharge(case, rnd):
+    """The same problem with recharge stations on (most of) its shifts: a distance budget per stretch between two stations,
+    stations at locations of the problem (with and without duration / tag / opening times)."""
+    c = copy.deepcopy(case)
+    c['id'] = case['id'] + 'e'
+    n = int(round(len(case['matrices'][0]['distances']) ** 0.5))
+    horizon = 3000
+    for vt in c['problem']['fleet']['vehicles']:
+        for sh in vt['shifts']:
+            if rnd.random() < 0.85:
+                st = []
+                for k in range(rnd.choice([1, 1, 2, 3])):
+                    x = {'location': {'index': rnd.randrange(n)}, 'duration': float(rnd.choice([0, 10, 20]))}
+                    if rnd.random() < 0.4: x['tag'] = 'rc%d' % k
+                    if rnd.random() < 0.2:
+                        a = rnd.randrange(0, horizon, 10)
+                        x['times'] = [[pgen.ts(a), pgen.ts(a + rnd.choice([200, 600, 1500]))]]
+                    st.append(x)
+                sh['recharges'] = {'maxDistance': float(rnd.choice([400, 700, 1000, 1500, 2500])), 'stations': st}
+    c['problem']['plan'].pop('relations', None)
+    c['features'] = sorted(set(c.get('features', [])) | {'recharge'})
+    return c
 
 
 def add_clustering(case, rnd):
@@ -336,7 +360,11 @@ def run(pid, tier):
     # fourth pass: coordinate twins (no matrices: the reader approximates the routing data and reports it back)
     geo_cases = [to_coords(c, rnd) for c in cases if 'unreachable' not in c.get('features', []) and rnd.random() < 0.15]
     geo_out = solve(pid + '-g', geo_cases, jobs=10) if geo_cases else {}
-    cases_by_id = {c['id']: c for c in cases + rel_cases + init_cases + geo_cases}
+    # fifth pass: recharge twins (stations and a distance budget per stretch on most shifts)
+    rch_cases = [add_recharge(c, rnd) for c in cases if rnd.random() < (0.2 if tier == 'quick' else 0.25)]
+    rch_out = solve(pid + '-e', rch_cases, jobs=10) if rch_cases else {}
+    cases_by_id = {c['id']: c for c in cases + rel_cases + init_cases + geo_cases + rch_cases}
+    outcomes.update(rch_out)
     outcomes.update(rel_out)
     outcomes.update(init_out)
     outcomes.update(geo_out)
@@ -433,7 +461,7 @@ def run(pid, tier):
                      'unassigned': [u['job'] for u in sample['unassigned']], 'config': cases_by_id[sample['id']]['config']}],
         'invariants_judged': sorted(mine), 'invariants_failed_of_other_properties': dict(others),
         'solver_status': dict(status), 'not_ok_runs_not_judged_here': not_ok[:5], 'unsupported_projection': dict(unsupported),
-        'relation_cases': len(rel_cases), 'seeded_cases': len(init_cases), 'coordinate_cases': len(geo_cases), 'coordinate_cases_judged': sum(1 for c in geo_cases if outcomes[c['id']]['status'] == 'ok'), 'vicinity_clustering_pass': clustering, 'feature_counts': dict(feats),
+        'relation_cases': len(rel_cases), 'seeded_cases': len(init_cases), 'recharge_cases': len(rch_cases), 'recharge_solutions_with_recharge_stops': sum(1 for c in rch_cases if outcomes[c['id']]['status'] == 'ok' and any(a['type'] == 'recharge' for t in outcomes[c['id']]['solution'].get('tours', []) for st in t['stops'] for a in st['activities'])), 'coordinate_cases': len(geo_cases), 'coordinate_cases_judged': sum(1 for c in geo_cases if outcomes[c['id']]['status'] == 'ok'), 'vicinity_clustering_pass': clustering, 'feature_counts': dict(feats),
         'canaries': {'applied': canary_total, 'rejected': canary_rejected},
         'known_finding_hits': {k: len(v) for k, v in verdict.known_hits.items()},
         'tlc_wall_s': round(res.wall, 1),
